@@ -174,12 +174,24 @@ func (d *Decoder) readStruct() (interface{}, error) {
 	}
 }
 
+// errNoTag reports that the input ended where the tag of a value was expected.
+var errNoTag = newCodecError("readData", "unexpected end of input: no tag to read")
+
 //ReadData read object
 func (d *Decoder) ReadData() (interface{}, error) {
+	data, err := d.readData()
+	if err == errNoTag {
+		return nil, nil //ignore
+	}
+	return data, err
+}
+
+// readData read object, a missing tag is an error so that containers can tell the end of input from a null value
+func (d *Decoder) readData() (interface{}, error) {
 	tag, err := d.readTag()
 	if err != nil {
 		hlog.Debugf("reading tag err:%v", err)
-		return nil, nil //ignore
+		return nil, errNoTag
 	}
 
 	switch {
